@@ -27,12 +27,27 @@ def rand_tcp_sig(R):
     return s
 
 
+ND_ZEROS = [0x660, 0x6F0, 0x966, 0xE50, 0xFF10, 0x1D7CE, 0x1D7F6, 0x104A0, 0x1E950]      # zero of some Unicode decimal-digit runs
+USPACE = ["\x85", "\xa0", "\u1680", "\u2000", "\u2003", "\u200a", "\u2028", "\u2029", "\u202f", "\u205f", "\u3000"]
+
+
+def exotic_num(R, digits):
+    """The same number as int() reads it: decimal digits of another script, non-ASCII white space around (what str.isspace() accepts)."""
+    z = R.choice(ND_ZEROS)
+    out = "".join(chr(z + int(ch)) if R.random() < 0.8 else ch for ch in digits)
+    if R.random() < 0.4:
+        out = R.choice(USPACE) + out
+    if R.random() < 0.4:
+        out = out + R.choice(USPACE)
+    return out
+
+
 def tcp_sig_text(R, s):
     t = G.sig_text(s)
     if R.random() < 0.1:   # int() leniency that the grammar tolerates
         parts = t.split(":")
         if parts[2].isdigit():
-            parts[2] = R.choice(["0", "+", " "]) + parts[2]
+            parts[2] = R.choice(["0", "+", " "]) + parts[2] if R.random() < 0.6 else exotic_num(R, parts[2])
         t = ":".join(parts)
     return t
 
@@ -82,6 +97,8 @@ def ws(R):
 def rand_sig_line(R, kind):
     if kind == "mtu":
         v = str(R.choice([1, 576, 1280, 1500, 9000, 65535, R.randrange(1, 65536)]))
+        if R.random() < 0.05:
+            v = exotic_num(R, v)
     elif kind == "tcp":
         v = tcp_sig_text(R, rand_tcp_sig(R))
     else:
@@ -128,7 +145,8 @@ def line_kind(l):
 
 
 FIELD_FAULTS = ["", "-1", "256", "65536", "1001", "x", "1x", "0", "1", "*", "**", "999999", "+", "-", "?", "?256", "eol+", "eol+256", "mss*0", "mtu*1001",
-                "%1", "%65536", "%", ",", "64+", "+64", "64+200", "0-", "256-", "64--", "nop,", ",nop", "foo", "df,", "flow", "id+", "eol", "sack ", " ts"]
+                "%1", "%65536", "%", ",", "64+", "+64", "64+200", "0-", "256-", "64--", "nop,", ",nop", "foo", "df,", "flow", "id+", "eol", "sack ", " ts",
+                "\u0661", "\uff11\uff10", "\u00b2", "\u20287", "7\u3000", "1\x1c", "\x1c1", "\u0967\u0968\u0969", "1\u00a02", "\u2460", "\u0661_\u0662", "\uff0b5", "+\uff15"]
 
 
 TCP_FIELD_FAULTS = {
@@ -243,7 +261,9 @@ def corrupt(R, lines):
         if secs:
             j = R.choice(secs)
             lines[j] = R.choice(["[tcp]", "[http]", "[mtu:request]", "[udp]", "[tcp:both]", "[tcp:request", "[]", "[tcp:]", "[:request]", "[TCP:request]",
-                                 "[tcp:request:x]", "[mtu:]", "[ mtu ]", "[tcp :request]"])
+                                 "[tcp:request:x]", "[mtu:]", "[ mtu ]", "[tcp :request]",
+                                 # the code cuts the first and the last CHARACTER off, whatever they are
+                                 "[mtu\u00e9", "[tcp:request\u65e5", "[http:response\U0001d7ce", "[mtu]\u00e9", "[\u00e9mtu]", "[mtu\u2028]", "[mtu)", "[tcp:response}"])
             return lines, "section header at line %d := %s" % (j + 1, lines[j])
     if op == 10:
         labs = [j for j in idx if line_kind(lines[j]) == "label"]
